@@ -121,6 +121,7 @@ pub fn after_write() {
 /// `hint::spin_loop()`: a yield, or (knob `lazy_spin`) an ordinary scheduling point.
 pub fn spin_hint() {
   if RATES.with(|r| r.get()).lazy_spin {
+    probe("spin_as_ordinary_scheduling_point");
     SWITCH_POINT.with(|a| {
       let _ = a.load(std::sync::atomic::Ordering::SeqCst);
     });
